@@ -56,7 +56,7 @@ static std::string resStr(const HttpHeader &hdr)
       << " n=" << n;
     for (auto e : hdr.entries) if (e) o << " " << entStr(e);
     // the presence mask must agree with the entries
-    for (auto e : hdr.entries) if (e && !hdr.has(e->id) && e->id != Http::HdrType::BAD_HDR) o << " BAD-MASK";
+    for (auto e : hdr.entries) if (e && Http::any_registered_header(e->id) && !hdr.has(e->id)) o << " BAD-MASK";
     return o.str();
 }
 
